@@ -479,6 +479,27 @@ func suiteNumbers(o *suiteOut, r *rng, tier string, n int) {
 		add(randPath(r, l, 1, 900, false))
 		flush()
 	}
+	// 4b. long paths in which one coordinate creeps by less than the encoder's threshold (1e-6) per step: the choice of
+	// the one-operand forms must follow the position the decoder will have, not the caller's previous point
+	creep := []int{6000, 10000}
+	if tier == "thorough" {
+		creep = []int{5200, 6000, 8000, 10000}
+	}
+	for _, l := range creep {
+		for _, eps := range []float64{0.5e-6, 0.9e-6, 0.99e-6} {
+			g := &numGlyph{wx: 500, cmds: []type1.GlyphOp{{Op: type1.OpMoveTo, Args: []float64{0, 0}}}}
+			h := &numGlyph{wx: 500}
+			for i := 1; i <= l; i++ {
+				g.cmds = append(g.cmds, type1.GlyphOp{Op: type1.OpLineTo, Args: []float64{float64(i), float64(i) * eps}})
+				h.cmds = append(h.cmds, type1.GlyphOp{Op: type1.OpMoveTo, Args: []float64{float64(i) * eps, float64(i % 50)}})
+			}
+			g.cmds = append(g.cmds, type1.GlyphOp{Op: type1.OpClosePath})
+			add(g)
+			add(h)
+			o.count("long paths with a creeping coordinate")
+		}
+		flush()
+	}
 	o.notes = append(o.notes, "case = one glyph written by Font.Write in a random container format and recovered by the independent decoder; impl line = raw charstring bytes; non-trivial = has path commands or a width outside the one-byte range")
 }
 
